@@ -25,20 +25,21 @@ func repoDir() string {
 	}
 	return "/repo"
 }
+
 const ModPath = "github.com/palomachain/paloma/v2"
 
 type Program struct {
-	Fset      *token.FileSet
-	Pkgs      []*packages.Package
-	SSA       *ssa.Program
-	SSAPkgs   []*ssa.Package
-	Funcs     map[string]*ssa.Function // canonical name -> function (incl. methods, closures, instances)
-	Contracts map[string]*Contract     // canonical name -> contract
+	Fset          *token.FileSet
+	Pkgs          []*packages.Package
+	SSA           *ssa.Program
+	SSAPkgs       []*ssa.Package
+	Funcs         map[string]*ssa.Function // canonical name -> function (incl. methods, closures, instances)
+	Contracts     map[string]*Contract     // canonical name -> contract
 	ContractFiles []string
-	LoadSecs  float64
-	SpecFuns  map[string]specFun
-	GhostSorts map[string]string
-	SpecAxioms []string
+	LoadSecs      float64
+	SpecFuns      map[string]specFun
+	GhostSorts    map[string]string
+	SpecAxioms    []string
 }
 
 // CanonName gives a stable, short name: "x/skyway/keeper.(Keeper).Foo", "util/palomath.Median[uint64]",
@@ -90,7 +91,7 @@ func LoadProgram(patterns []string) (*Program, error) {
 		Mode:       packages.LoadSyntax,
 		Dir:        RepoDir,
 		BuildFlags: []string{"-tags=verif"},
-		Env: append(os.Environ(), "GOFLAGS=-mod=mod", "GOPROXY=off", "GOSUMDB=off", "GOTOOLCHAIN=local"),
+		Env:        append(os.Environ(), "GOFLAGS=-mod=mod", "GOPROXY=off", "GOSUMDB=off", "GOTOOLCHAIN=local"),
 		Tests:      false,
 	}
 	pkgs, err := packages.Load(cfg, patterns...)
@@ -143,8 +144,11 @@ func LoadProgram(patterns []string) (*Program, error) {
 						// the same function under contract for several properties: one merged contract
 						prev.Clauses = append(prev.Clauses, c.Clauses...)
 						for k, v := range c.Flags {
-							if _, dup := prev.Flags[k]; !dup {
+							if pv, dup := prev.Flags[k]; !dup {
 								prev.Flags[k] = v
+							} else if (k == "pure" || k == "inline" || k == "noinline") && pv != v {
+								// list-valued flags accumulate
+								prev.Flags[k] = pv + ", " + v
 							}
 						}
 						prev.Files = append(prev.Files, m)
@@ -153,6 +157,24 @@ func LoadProgram(patterns []string) (*Program, error) {
 					P.Contracts[key] = c
 				}
 			}
+		}
+	}
+	// a contract on a generic function is checked on (and applied to) each instance the loaded
+	// packages create: go/ssa builds a separate body per instantiation
+	for key, c := range P.Contracts {
+		fn := P.Funcs[key]
+		if fn == nil || fn.TypeParams().Len() == 0 || len(fn.TypeArgs()) > 0 {
+			continue
+		}
+		found := false
+		for name := range P.Funcs {
+			if strings.HasPrefix(name, key+"[") {
+				P.Contracts[name] = c
+				found = true
+			}
+		}
+		if found {
+			delete(P.Contracts, key)
 		}
 	}
 	return P, nil
